@@ -122,6 +122,11 @@ def prep_goto(job, wd):
 
 def _post_gotocc(job, base):
     cur = base + '.gb'
+    if job.cfg.get('restrict_fp'):
+        nxt = base + '.rf.gb'
+        cmd = ['goto-instrument']
+        for r in job.cfg['restrict_fp']: cmd += ['--restrict-function-pointer-by-name', r]
+        must(cmd + [cur, nxt], 'goto-instrument --restrict-function-pointer-by-name'); cur = nxt
     if job.remove_bodies:
         nxt = base + '.rb.gb'
         cmd = ['goto-instrument']
@@ -175,6 +180,8 @@ def prep_irseq(job, wd):
         txt = ''.join(outp)
         if '@verif_wrap_%s(' % fn not in txt: raise BuildError('wrap: no call site of %s found' % fn)
     txt = re.sub(r'\bnoinline\b', '', txt); txt = re.sub(r'\boptnone\b', '', txt)
+    # harness-model bookkeeping functions stay out of line: in the translated query they are atomic steps (one pre-emption point before the call)
+    txt = re.sub(r'(?m)^(define [^\n]*@(?:verif_make_runnable|verif_pop|verif_switch_to|verif_after_resume|verif_spawn|verif_take_env|verif_m_[A-Za-z0-9_]+)\([^\n]*?\))( #\d+)?( \{)$', r'\1 noinline\2\3', txt)
     open(base + '.2.ll', 'w').write(txt)
     pipe = job.cfg.get('opt_pipe', OPT_PIPE)
     must(['opt-14', '-S', '-passes=' + pipe, '-inline-threshold=1000000', base + '.2.ll', '-o', base + '.ll'], 'opt')
